@@ -13,18 +13,19 @@ Log == ndJsonDeserialize(IOEnv.TRACE)
 Ev == Log[l]
 NL == 10
 BL == 32
-\* Split(s, c): the pieces of s between occurrences of c (empty pieces included), iteratively
-Split(s, c) == LET r == FoldLeft(LAMBDA a, x : IF x = c THEN [done |-> Append(a.done, a.piece), piece |-> <<>>]
-                                                        ELSE [done |-> a.done, piece |-> Append(a.piece, x)],
-                                 [done |-> <<>>, piece |-> <<>>], s)
-               IN Append(r.done, r.piece)
+\* Split(s, c): the pieces of s between occurrences of c (empty pieces included)
+Split(s, c) == LET n == Len(s)
+                   p == SelectSeq([i \in 1..n |-> i], LAMBDA i : s[i] = c)      \* where the separators are
+                   m == Len(p)
+                   lo(k) == IF k = 1 THEN 1 ELSE p[k-1] + 1
+                   hi(k) == IF k = m + 1 THEN n ELSE p[k] - 1
+               IN [k \in 1..(m + 1) |-> SubSeq(s, lo(k), hi(k))]
 NonEmptyOnes(ss) == SelectSeq(ss, LAMBDA x : x # <<>>)
 Tok(b) == [len |-> Len(b), dash |-> (b[1] = 45), nn |-> (b = <<110, 110>>), id |-> b]
 Words(line) == LET ws == NonEmptyOnes(Split(line, BL)) IN [j \in 1..Len(ws) |-> Tok(ws[j])]
 \* input: lines = non-empty pieces between newlines; tokens = non-empty pieces between blanks
 ParseText(t) == LET ls == NonEmptyOnes(Split(t, NL)) IN [L \in 1..Len(ls) |-> Words(ls[L])]
-LeadOf(line) == FoldLeft(LAMBDA a, x : IF a.on /\ x = BL THEN [on |-> TRUE, n |-> a.n + 1] ELSE [on |-> FALSE, n |-> a.n],
-                         [on |-> TRUE, n |-> 0], line).n
+LeadOf(line) == LET i == SelectInSeq(line, LAMBDA x : x # BL) IN IF i = 0 THEN Len(line) ELSE i - 1
 \* output: nothing written = no line; otherwise every piece between newlines is a line
 ParseOut(o) == IF o = <<>> THEN <<>>
                ELSE LET ls == Split(o, NL)
